@@ -1,7 +1,83 @@
 import Mutagen.Driver.Util
+import Mutagen.Model.Forward
 namespace Mutagen.Driver.C33
+open Mutagen.Driver Mutagen.Model.Forward
 
-/-- Model-side handler for one line of the C33 correspondence stream. -/
-def handle (_line : String) : String := "unimplemented"
+/-!
+Lines:
+
+* `fac <auditors 0/1> <events>` — one `ForwardAndClose` call; events `-` or
+  comma separated: `r<d>:<hex>:<accept>:<werr 0/1>` (chunk in direction `d`),
+  `e<d>` (EOF), `x<d>` (read error), `c` (cancel).
+  Answer: `d0=<delivered>/<closeWrites> d1=… closed=<first>/<second> aud=<first>/<second>`
+  (`aud=-` when no auditors were passed).
+* `fwd <events>` — the controller's forwarding loop; events `o` (open), `of`
+  (destination open fails), `s` (source open fails), `snap`, `<k>.<event>`.
+  Answer: `c<k>=<d0 delivered>/<cw>/<d1 delivered>/<cw>/<closed first>/<closed second>`
+  for every connection, `orphan=<n>`, `snaps=<open>/<total>/<in>/<out>;…` (or
+  `-`), `end=<open>/<total>/<in>/<out>`.
+-/
+
+def parseDir : Char → Option Bool
+  | '0' => some false | '1' => some true | _ => none
+
+def parseEvent (s : String) : Option Event :=
+  match s.splitOn ":" with
+  | [t] =>
+    match t.toList with
+    | ['e', d] => do pure (.eof (← parseDir d))
+    | ['x', d] => do pure (.err (← parseDir d))
+    | ['c'] => some .cancel
+    | _ => none
+  | [t, h, a, w] =>
+    match t.toList with
+    | ['r', d] => do pure (.chunk (← parseDir d) (← decHex h) (← a.toNat?) (w == "1"))
+    | _ => none
+  | _ => none
+
+def parseEvents (s : String) : Option (List Event) :=
+  if s == "-" then some [] else (s.splitOn ",").mapM parseEvent
+
+def parseLoopEvent (s : String) : Option LoopEvent :=
+  match s with
+  | "o" => some .open
+  | "of" => some .openFail
+  | "s" => some .stop
+  | "snap" => some .snap
+  | _ =>
+    match s.splitOn "." with
+    | [k, e] => do
+      match ← parseEvent e with
+      | .cancel => none   -- the loop has no per-connection cancellation
+      | ev => pure (.conn (← k.toNat?) ev)
+    | _ => none
+
+def parseLoopEvents (s : String) : Option (List LoopEvent) :=
+  if s == "-" then some [] else (s.splitOn ",").mapM parseLoopEvent
+
+def showDir (d : Dir) : String := s!"{encHex d.delivered}/{d.closeWrites}"
+
+def showCounters (c : Counters) : String :=
+  s!"{c.openConnections}/{c.totalConnections}/{c.inbound}/{c.outbound}"
+
+def handle (line : String) : String :=
+  match fields line with
+  | ["fac", aud, es] =>
+    match parseEvents es with
+    | some es =>
+      let c := Conn.run es
+      let a := if aud == "1" then s!"{c.d0.audited}/{c.d1.audited}" else "-"
+      s!"d0={showDir c.d0} d1={showDir c.d1} closed={c.closedFirst}/{c.closedSecond} aud={a}"
+    | none => "bad-op"
+  | ["fwd", es] =>
+    match parseLoopEvents es with
+    | some es =>
+      let l := Loop.run es
+      let cs := (List.range l.conns.length).zip l.conns |>.map fun (k, c) =>
+        s!"c{k}={encHex c.d0.delivered}/{c.d0.closeWrites}/{encHex c.d1.delivered}/{c.d1.closeWrites}/{c.closedFirst}/{c.closedSecond}"
+      let snaps := if l.snaps.isEmpty then "-" else ";".intercalate (l.snaps.map showCounters)
+      " ".intercalate (cs ++ [s!"orphan={l.orphanClosed}", s!"snaps={snaps}", s!"end={showCounters l.counters}"])
+    | none => "bad-op"
+  | _ => "bad-op"
 
 end Mutagen.Driver.C33
